@@ -26,6 +26,7 @@ import (
 	eth2api "github.com/attestantio/go-eth2-client/api"
 	eth2p0 "github.com/attestantio/go-eth2-client/spec/phase0"
 	"github.com/prometheus/client_golang/prometheus"
+	"github.com/prometheus/client_golang/prometheus/collectors"
 	dto "github.com/prometheus/client_model/go"
 
 	"github.com/obolnetwork/charon/app/errors"
@@ -392,6 +393,10 @@ func TestExec(t *testing.T) {
 	if err != nil {
 		t.Fatalf("registry: %v", err)
 	}
+
+	// the process and Go runtime collectors are slow and irrelevant
+	reg.Unregister(collectors.NewProcessCollector(collectors.ProcessCollectorOpts{}))
+	reg.Unregister(collectors.NewGoCollector())
 
 	o := &observer{reg: reg, sink: sink}
 	scheds := drv.ReadSchedules(t)
